@@ -109,9 +109,12 @@ def main():
     out.sort(key=lambda r: r["name"])
     prev = {}
     pj = os.path.join(HERE, "results.json")
-    if os.path.exists(pj) and (a.only or a.props):
+    if os.path.exists(pj):
         prev = {r["name"]: r for r in json.load(open(pj))}
     for r in out:
+        old = prev.get(r["name"])
+        if old and "suite_passes" in old and "suite_passes" not in r:
+            r["suite_passes"], r["suite"] = old["suite_passes"], old.get("suite")      # keep the suite verdict of the last full run
         prev[r["name"]] = r
     allr = sorted(prev.values(), key=lambda r: r["name"]) if prev else out
     json.dump(allr, open(pj, "w"), indent=1)
